@@ -1,0 +1,68 @@
+#![allow(missing_docs)]
+//! Verification event sink. Only compiled with `--cfg compio_verif`.
+//!
+//! The driver reports the raw facts a lifetime checker needs: when the storage
+//! of an operation is allocated and freed, when a reference to it is handed to
+//! the kernel or to the thread pool, every completion queue entry exactly as
+//! the kernel produced it, and when the ring is closed. Nothing here changes
+//! the behaviour of the driver.
+
+use std::sync::atomic::{AtomicUsize, Ordering};
+
+/// How an operation was handed over.
+#[derive(Debug, Clone, Copy, PartialEq, Eq)]
+pub enum SubmitPath {
+    /// A submission queue entry of io_uring.
+    Iour,
+    /// Readiness interest registered with the poller.
+    PollWait,
+    /// A job dispatched to the thread pool.
+    Blocking,
+}
+
+/// A fact reported by the driver.
+#[derive(Debug, Clone, Copy, PartialEq, Eq)]
+pub enum Event {
+    /// Storage of an operation was allocated; `id` is its address.
+    OpAlloc { id: usize },
+    /// Storage of an operation was released.
+    OpFree { id: usize },
+    /// A reference to the operation was handed over.
+    Submit { id: usize, path: SubmitPath },
+    /// A completion queue entry as produced by the kernel.
+    Cqe { user_data: u64, res: i32, flags: u32 },
+    /// The thread pool job finished touching the operation.
+    PoolDone { id: usize },
+    /// The io_uring instance was closed.
+    RingClosed,
+}
+
+static SINK: AtomicUsize = AtomicUsize::new(0);
+
+/// Install (or remove) the event sink. The function may be called from any
+/// thread, including thread pool workers.
+pub fn set_sink(f: Option<fn(Event)>) {
+    SINK.store(f.map_or(0, |f| f as usize), Ordering::SeqCst);
+}
+
+#[inline]
+pub(crate) fn emit(e: Event) {
+    let p = SINK.load(Ordering::SeqCst);
+    if p != 0 {
+        // SAFETY: only `set_sink` stores here, and it stores a `fn(Event)`.
+        let f: fn(Event) = unsafe { std::mem::transmute(p) };
+        f(e);
+    }
+}
+
+/// Lives inside the storage of an operation and reports its release.
+#[derive(Debug, Default)]
+pub(crate) struct Token(pub(crate) usize);
+
+impl Drop for Token {
+    fn drop(&mut self) {
+        if self.0 != 0 {
+            emit(Event::OpFree { id: self.0 });
+        }
+    }
+}
